@@ -130,7 +130,10 @@ def observe(path, paths):
     if not os.path.exists(path):
         return {pstr(p): (False, False, False, None) for p in paths}, []
     tracked = {pstr(p) for p in paths}
-    listing = [("/" + x.strip("/")) if x != "/" else "/" for x in fileops.list_coolers(path)]
+    st, val = G.guarded(lambda: fileops.list_coolers(path), 30)
+    if st != "ok":          # a crash of the listing is an observation, not a harness error
+        val = ["<list_coolers raised " + st + ">"]
+    listing = [("/" + x.strip("/")) if x != "/" else "/" for x in val]
     out = {}
     with h5py.File(path, "r") as f:
         for p in paths:
@@ -140,7 +143,8 @@ def observe(path, paths):
     for p in paths:
         s = pstr(p)
         ex, _, li, sh = out[s]
-        out[s] = (ex, bool(fileops.is_cooler(path + "::" + s)), li, sh)
+        st, val = G.guarded(lambda: bool(fileops.is_cooler(path + "::" + s)), 30)
+        out[s] = (ex, val if st == "ok" else "<is_cooler raised " + st + ">", li, sh)
     return out, sorted(listing)
 
 
